@@ -260,7 +260,19 @@ def run(rep, tier, seed, keep=False):
             base = yaql.YaqlFactory().create(options={'yaql.convertTuplesToLists': not t2l, 'yaql.convertSetsToLists': not s2l,
                                                       'yaql.convertInputData': True, 'yaql.convertOutputData': True})
             copied = base.copy(opts)
+            # one options dict handed to several factories (a legacy-syntax engine first): every engine follows what the host asked
+            # for, and the host's dict is still what the host wrote
+            shared_opts = dict(opts)
+            from yaql import legacy as _legacy
+            try:
+                _legacy.YaqlFactory().create(shared_opts)
+            except Exception:
+                pass
+            after_legacy = yaql.YaqlFactory().create(options=shared_opts)
+            if shared_opts != opts:
+                rep.note('the options dict %r handed to a legacy factory came back as %r' % (opts, shared_opts))
             configs = [('engine created with the options', lambda x: eng.e[(t2l, s2l, True)](x), eng.ctx),
+                       ('engine created from an options dict that a legacy factory had been given before', lambda x: after_legacy(x), eng.ctx),
                        ('engine.copy(options) of an engine with the opposite options', lambda x: copied(x), eng.ctx),
                        ('engine(text, options) on an engine with the opposite options', lambda x: base(x, opts), eng.ctx),
                        ('context built on a root context object supplied by the host', lambda x: eng.e[(t2l, s2l, True)](x), own_root)]
